@@ -362,12 +362,19 @@ func TestVerifC13(t *testing.T) {
 	defer vC13Srv.Close()
 	var lastWire []byte
 	var lastSrv, lastPmd bool
+	sessFails := 0
 	runOne := func(c vSx) {
 		if !c.isList() || len(c.l) == 0 {
 			return
 		}
 		switch c.l[0].int() {
 		case 0:
+			if sessFails >= 12 {
+				// a broken implementation makes every session wait for time-outs: a dozen failing
+				// inputs are enough for the report, keep the run inside its time budget
+				k.count("family", "session-skipped-after-failures")
+				return
+			}
 			t0 := time.Now()
 			res := vC13Session(c)
 			if d := time.Since(t0); d > 500*time.Millisecond && os.Getenv("VERIF_C13_SLOW") != "" {
@@ -379,6 +386,7 @@ func TestVerifC13(t *testing.T) {
 			k.count("ops", vSizeBucket(len(c.l[5].l)))
 			k.count("config", fmt.Sprintf("srv=%d,comp=%d,B=%d", c.l[1].int(), c.l[3].int(), c.l[2].int()))
 			if res.failOracle != "" {
+				sessFails++
 				k.fail(idx, res.c.size(), res.failOracle, "", res.failDetail)
 			}
 			lastWire, lastSrv, lastPmd = res.wire, res.fromSrv, res.pmd
@@ -438,7 +446,7 @@ func TestVerifC13(t *testing.T) {
 			runOne(vL(vZ(4), vI(kind), vI(tamper)))
 		}
 	}
-	n := k.N(450, 4000)
+	n := k.N(700, 4000)
 	for i := 0; i < n; i++ {
 		runOne(vC13GenSession(k.rnd, k.thorough()))
 		if len(lastWire) > 0 && len(lastWire) <= 3000 && k.rnd.chance(1, 2) {
